@@ -7,7 +7,7 @@ class C36(Prop):
     drivers = [dict(pkg="internal/metrics", test="TestVerifC36")]
     n_quick = 150
     n_thorough = 8000
-    shard = 25
+    shard = 15
     ready = True
     rule = ("the real onMetrics handler with stub path manager / WebRTC server returning generated entities (0-3 paths with "
             "readers, 0-2 sessions) whose names, paths and remote addresses are client-style strings: quotes, backslashes, "
